@@ -15,11 +15,13 @@ Inductive case :=
 | CBigAdder (w : nat) (ci co : bool) (C : Circuit) | CBigMux (w : nat) (C : Circuit) | CBigPop (w : nat) (C : Circuit)
 (* widths with two-digit indices: graph equality + the specification on a subset of the input vectors (Proofs/LogicOracle.v, *_sweep) *)
 | CAdderSweep (w : nat) (ci co : bool) (C : Circuit) | CMuxSweep (w : nat) (C : Circuit) | CPopSweep (w : nat) (C : Circuit)
+(* several generator calls made in ONE process (state across calls): every circuit returned in the session is a case *)
+| CSession (l : list case)
 (* Python-side simulation of a large block on random vectors: additional support, not a proof *)
 | CSim (fn : string) (w vectors : nat) (ok : bool).
 
 (* model = recorded implementation result *)
-Definition agree (k : case) : bool :=
+Fixpoint agree (k : case) : bool :=
   match k with
   | CClog2 num obs => bool_decide (clog2 num = obs)
   | CI2B i w lend obs back => bool_decide (int_to_bin i w lend = obs) && bool_decide (bin_to_int obs lend = back)
@@ -31,12 +33,13 @@ Definition agree (k : case) : bool :=
   | CPop w obs => bool_decide (popcount w = obs)
   | CBigMux w C | CMuxSweep w C => bool_decide (mux w = Ok C)
   | CBigPop w C | CPopSweep w C => bool_decide (popcount w = Ok C)
+  | CSession l => forallb agree l
   | CSim _ _ _ _ => true
   end.
 
 (* the property, judged on what the implementation returned *)
 Definition clean (C : Circuit) : bool := lint_cleanb C && bool_decide (c_bbs C = ∅).
-Definition holds (k : case) : bool :=
+Fixpoint holds (k : case) : bool :=
   match k with
   | CClog2 num obs =>
       (* clog2(n) = ceil(log2 n) for n >= 1; below 1 there is no such number: any exception is fine, a number is not
@@ -64,7 +67,12 @@ Definition holds (k : case) : bool :=
       | O, _ => true                                     (* w >= 1 only; agree pins the IndexError *)
       | S _, Ok C => popcount_ok w (c_g C) && clean C
       | _, _ => false end
-  | CBigAdder _ _ _ _ | CBigMux _ _ | CBigPop _ _ => true
+  (* (if-then-else, not ||: vm_compute is strict)  large widths: graph equality carries the theorems over; only when it FAILS (and w <= 17) the returned circuit is
+     judged by a subset sweep, so that a disagreement comes with a verdict of the specification *)
+  | CBigAdder w ci co C => if bool_decide (adder w ci co = C) || negb (w <=? 17)%nat then true else adder_sweep_ok w ci co (c_g C)
+  | CBigMux w C => if bool_decide (mux w = Ok C) || negb (w <=? 17)%nat then true else mux_sweep_ok w (c_g C)
+  | CBigPop w C => if bool_decide (popcount w = Ok C) || negb (w <=? 17)%nat then true else popcount_sweep_ok w (c_g C)
+  | CSession l => forallb holds l
   (* lint at these sizes is quadratic: only for the (small) mux; for adder/popcount it is theorem + graph equality *)
   | CAdderSweep w ci co C => adder_sweep_ok w ci co (c_g C) && bool_decide (c_bbs C = ∅)
   | CMuxSweep w C => mux_sweep_ok w (c_g C) && clean C
